@@ -264,6 +264,46 @@ pub fn inputs_c06(r: &mut Rng, n: usize, tier: &str, out: &mut dyn Write) {
     writeln!(out, "leap_table file").unwrap();
 }
 
+pub fn inputs_c07(r: &mut Rng, n: usize, _tier: &str, out: &mut dyn Write) {
+    const DYN: [&str; 2] = ["ET", "TDB"];
+    for _ in 0..n {
+        let u = *r.pick(&UNIFORM);
+        let dy = *r.pick(&DYN);
+        // within +/- 10 000 years of J2000, expressed in the chosen scale's own count
+        let j2000 = 3_155_716_800 * SEC;
+        let around = |r: &mut Rng| -> i128 {
+            match r.below(6) {
+                0 => small_off(r),
+                1 => (r.range_i64(-3_652_500, 3_652_500) as i128) * DAY + small_off(r),
+                2 => (r.range_i64(-36525, 36525) as i128) * DAY + r.below(DAY as u64) as i128,
+                3 => (r.range_i64(-100, 100) as i128) * NPC + small_off(r),
+                _ => (r.range_i64(-3_652_500, 3_652_500) as i128) * DAY + r.below(DAY as u64) as i128,
+            }
+        };
+        let t_u = j2000 - ref_off(u) + around(r); // value in uniform scale u
+        let t_d = around(r); // value in ET/TDB (past J2000)
+        match r.below(10) {
+            0 | 1 | 2 => writeln!(out, "dyn_to {}:{} {}", dstr(t_u), u, dy).unwrap(),
+            3 | 4 => writeln!(out, "dyn_to {}:{} {}", dstr(t_d), dy, u).unwrap(),
+            5 | 6 => writeln!(out, "dyn_rt {}:{} {}", dstr(t_u), u, dy).unwrap(),
+            7 => writeln!(out, "dyn_rt {}:{} {}", dstr(t_d), dy, u).unwrap(),
+            8 => {
+                // order of instants more than 100 ns apart is preserved
+                let gap = 101 + match r.below(3) { 0 => 0, 1 => r.below(1000) as i128, _ => r.below(DAY as u64) as i128 };
+                if r.chance(1, 2) {
+                    writeln!(out, "dyn_mono {}:{} {} {}", dstr(t_u), u, dstr(gap), dy).unwrap()
+                } else {
+                    writeln!(out, "dyn_mono {}:{} {} {}", dstr(t_d), dy, dstr(gap), u).unwrap()
+                }
+            }
+            _ => {
+                let acc = *r.pick(&["to_et_duration", "to_tdb_duration", "to_jde_et_duration", "to_jde_tdb_duration"]);
+                writeln!(out, "dyn_acc {} {}:{}", acc, dstr(t_u), u).unwrap()
+            }
+        }
+    }
+}
+
 pub fn inputs_c12(r: &mut Rng, n: usize, _tier: &str, out: &mut dyn Write) {
     for _ in 0..n {
         let a = *r.pick(&NONDYN);
@@ -475,7 +515,8 @@ fn okd(d: Duration) -> Option<String> {
 }
 
 fn file_provider() -> LeapSecondsFile {
-    LeapSecondsFile::from_path("/repo/data/leap-seconds.list").expect("data/leap-seconds.list loads")
+    let repo = std::env::var("HIFI_REPO").unwrap_or_else(|_| "/repo".to_string());
+    LeapSecondsFile::from_path(format!("{repo}/data/leap-seconds.list")).expect("data/leap-seconds.list loads")
 }
 
 fn opt_f(o: Option<f64>) -> String {
@@ -560,6 +601,26 @@ pub fn exec(op: &str, a: &[&str]) -> Option<String> {
             let ts = s2ts(a[0]);
             let e = ts.reference_epoch();
             Some(format!("ok {} {}", e2s(e), d2s(e.to_tai_duration())))
+        }
+        // ---- C07
+        "dyn_to" => oke(s2e(a[0]).to_time_scale(s2ts(a[1]))),
+        "dyn_rt" => {
+            let e = s2e(a[0]);
+            oke(e.to_time_scale(s2ts(a[1])).to_time_scale(e.time_scale))
+        }
+        "dyn_mono" => {
+            let (e, d, ts) = (s2e(a[0]), s2d(a[1]), s2ts(a[2]));
+            Some(format!("ok {} {}", e2s(e.to_time_scale(ts)), e2s((e + d).to_time_scale(ts))))
+        }
+        "dyn_acc" => {
+            let e = s2e(a[1]);
+            okd(match a[0] {
+                "to_et_duration" => e.to_et_duration(),
+                "to_tdb_duration" => e.to_tdb_duration(),
+                "to_jde_et_duration" => e.to_jde_et_duration(),
+                "to_jde_tdb_duration" => e.to_jde_tdb_duration(),
+                _ => return None,
+            })
         }
         // ---- C06
         "utcrt" => {
@@ -856,4 +917,12 @@ pub fn dump_consts(m: &mut serde_json::Map<String, serde_json::Value>) {
     put_f!(JD_J1900);
     put_f!(JD_J2000);
     m.insert("INT_CONSTS".into(), serde_json::Value::Object(ints));
+    let mut fl = serde_json::Map::new();
+    fl.insert("NAIF_K".into(), serde_json::json!(f2s(NAIF_K)));
+    fl.insert("NAIF_EB".into(), serde_json::json!(f2s(NAIF_EB)));
+    fl.insert("NAIF_M0".into(), serde_json::json!(f2s(NAIF_M0)));
+    fl.insert("NAIF_M1".into(), serde_json::json!(f2s(NAIF_M1)));
+    fl.insert("SECONDS_PER_CENTURY".into(), serde_json::json!(f2s(SECONDS_PER_CENTURY)));
+    fl.insert("TAU".into(), serde_json::json!(f2s(core::f64::consts::TAU)));
+    m.insert("F64_CONSTS".into(), serde_json::Value::Object(fl));
 }
